@@ -373,6 +373,9 @@ def data_ptr_shape(bv):
     if "void *get_ptr() const noexcept { return m_data->m_data_ptr; }" not in n or \
        "const void *get_const_ptr() const noexcept { return m_data->m_const_data_ptr; }" not in n:
         raise Shape("Boxed_Value::get_ptr/get_const_ptr changed")
+    # pointer_sentinel (std::shared_ptr<T> & parameters): after the call both cached pointers follow the possibly re-seated shared_ptr
+    if "~Sentinel() { const auto ptr_ = m_ptr.get().get(); m_data.get().m_data_ptr = ptr_; m_data.get().m_const_data_ptr = ptr_; }" not in n:
+        raise Shape("Boxed_Value::pointer_sentinel: the Sentinel destructor does not refresh both m_data_ptr and m_const_data_ptr")
     if "bool is_const() const noexcept { return m_data->m_type_info.is_const(); }" not in n:
         raise Shape("Boxed_Value::is_const changed")
     # Object_Data::get overloads: the constness recorded in the Type_Info is that of the type held by the Any
